@@ -4,9 +4,14 @@ import tempfile
 
 import histcheck
 import streams_hdr
+import streams_ws
 
 ID = "C07"
-RULE = ("hdr stream (Header.write byte-for-byte vs the Lean model, all sections) + exploration: write/append histories "
+RULE = ("hdr stream (Header.write byte-for-byte vs the Lean model, all sections) + cmp.run stream (SevenZipCompressor's block "
+        "loop, stage counters, packsize, digest, unpacksizes with scripted codec stages vs the Lean compressor model) + ws.arch "
+        "stream (whole create sessions of the real SevenZipFile on BytesIO with scripted codec stages: the Lean session model "
+        "predicts the archive file byte for byte — signature header, packed area, raw header — for every documented chain "
+        "+/-password, directories, empty members, block sizes 1..64) + exploration: write/append histories "
         "(1..3 sessions, every documented chain, +/-7zAES with a non-ASCII password, header raw/encoded/encrypted, members "
         "via writestr/writef/write incl. directories, empty files, symlinks) built through py7zr; after every session the "
         "archive is parsed by the Lean strict reader (every count, size, vector length, END marker, tiling of packed "
@@ -20,6 +25,7 @@ def run(ctx):
     ctx.lean_obligations("SevenZ.Props.C07")
     streams_hdr.run(ctx, fail_prefix="C07")
     streams_hdr.run(ctx, n_write=(400 if ctx.thorough else 100), n_mut=1, partial=True, empty_folders=True, fail_prefix="C07")
+    streams_ws.run(ctx)
     tmp = tempfile.mkdtemp(prefix="verif_c07_")
     try:
         histcheck.run(ctx, "C07", 400 if ctx.thorough else 60, tmp, max_sessions=3, check_py7zr=False)
